@@ -8,6 +8,7 @@ or `c` (Close); the model runs the calls on a fresh `Metrics`, closes once more 
 every exported field (floats as bit patterns).
 `c10.seconds d` prints the bits of `Duration(d).Seconds()`.
 `c10.durround d m` prints `Duration(d).Round(m)`; `c10.round d` prints `round(d)` of lib/reporters.go and its `String()`; `c10.fix2 bits` prints `%.2f` of the float.
+`c10.json p50 p90 p95 p99 n op₁ … opₙ` prints the members of the JSON report in document order;
 `c10.text p50 p90 p95 p99 n op₁ … opₙ` prints the cells of the text report of the closed metrics.
 `c10.loop n r₁ … rₙ k e₁ … eₖ` (results without the `a` tag; events `t` tick, `d` decode, `i` interrupt)
 runs the report command's loop and prints every report it writes. -/
@@ -83,6 +84,17 @@ def handle (op : String) (args : List String) : Option String :=
   | "c10.text" => do
     let ((p, ops), _) ← (do let a ← int; let b ← int; let c ← int; let d ← int; let ops ← listOf opP; pure ((a, b, c, d), ops)).run args
     pure (showText (textReport (report (close (run Metrics.init ops))) p.1 p.2.1 p.2.2.1 p.2.2.2))
+  | "c10.json" => do
+    let ((p, ops), _) ← (do let a ← int; let b ← int; let c ← int; let d ← int; let ops ← listOf opP; pure ((a, b, c, d), ops)).run args
+    let fields := jsonReport (report (close (run Metrics.init ops))) p.1 p.2.1 p.2.2.1 p.2.2.2
+    let showJV : JV → String
+      | .int i => toString i
+      | .nat n => toString n
+      | .flt x => showF x
+      | .time t => showTime t
+      | .codes cs => toString cs.length ++ cs.foldl (fun s (c, n) => s ++ "," ++ toString c ++ ":" ++ toString n) ""
+      | .strs es => toString es.length ++ es.foldl (fun s e => s ++ "," ++ hexEncode e) ""
+    pure ("ok" ++ fields.foldl (fun s (k, v) => s ++ " " ++ String.ofList (k.map (fun b => Char.ofNat b)) ++ "=" ++ showJV v) "")
   | "c10.loop" => do
     let ((rs, evs), _) ← (do let rs ← listOf resP; let evs ← listOf evP; pure (rs, evs)).run args
     let s := loopRun rs evs
